@@ -51,3 +51,8 @@ pub open spec fn ternary_evs(t: &Ternary, n: int) -> Seq<Ev> {
   seq![Ev::Expr(t.cond.id), Ev::Emit(SymbolicByteCode::JumpIfFalse(Label(n as u32))), Ev::Expr(t.then.id), Ev::Emit(SymbolicByteCode::Jump(Label((n + 1) as u32))),
        Ev::Emit(SymbolicByteCode::Label(Label(n as u32))), Ev::Expr(t.else_.id), Ev::Emit(SymbolicByteCode::Label(Label((n + 1) as u32)))]
 }
+
+/// what a function returns when it says nothing: an initialiser its receiver (read the way slot 0 must be read), anything else nil
+pub open spec fn ret_value(c: &Compiler) -> SymbolicByteCode {
+  if c.fun_kind == FunKind::Initializer { if recv_state() == SymbolState::LocalCaptured { SymbolicByteCode::GetBox(0) } else { SymbolicByteCode::GetLocal(0) } } else { SymbolicByteCode::Nil }
+}
